@@ -151,7 +151,7 @@ func staticCalleeName(cc *ssa.CallCommon) string {
 	if f := cc.StaticCallee(); f != nil {
 		if f.Object() != nil {
 			if fo, ok := f.Object().(*types.Func); ok {
-				return strings.ReplaceAll(fo.FullName(), modPath+"/", "")
+				return strings.ReplaceAll(strings.ReplaceAll(fo.FullName(), modPath+"/", ""), modPath+".", "zlint.")
 			}
 		}
 		return f.String()
